@@ -829,6 +829,14 @@ class Interp:
         fv = None
         if key is None and t["func"].get("k") in ("copy", "move"):
             fv = self.operand(fr, t["func"])
+        if key is None and isinstance(fv, FnVal) and not fv.closure and "::" in fv.path:
+            # the constructor function of a tuple variant / tuple struct used as a value (`Code::ADD as fn(..) -> Code`)
+            owner, last = fv.path.replace("::{constructor#0}", "").rsplit("::", 1)
+            A = self.fx.adts.get(owner)
+            if A is not None and any(v_["name"] == last for v_ in A["variants"]):
+                vdef = [v_ for v_ in A["variants"] if v_["name"] == last][0]
+                if len(vdef["fields"]) == len(args):
+                    return self._finish_call(fr, t, Adt(owner, last, {f_["name"]: a_ for f_, a_ in zip(vdef["fields"], args)}))
         if key is None and isinstance(fv, FnVal):
             cands = self.fx.by_path.get(fv.path) or []
             cands = [c for c in cands if "{promoted" not in c["key"]]
@@ -868,6 +876,14 @@ class Interp:
         if not isinstance(fv, FnVal):
             return Unknown("call of non-function")
         cands = [c for c in (self.fx.by_path.get(fv.path) or []) if "{promoted" not in c["key"]]
+        if not cands and not fv.closure and "::" in fv.path:
+            # the constructor function of a tuple variant / tuple struct (`.map(Code::PUSH)`)
+            owner, last = fv.path.replace("::{constructor#0}", "").rsplit("::", 1)
+            A = self.fx.adts.get(owner)
+            if A is not None:
+                vdef = [v_ for v_ in A["variants"] if v_["name"] == last]
+                if vdef and len(vdef[0]["fields"]) == len(args):
+                    return Adt(owner, last, {f_["name"]: a_ for f_, a_ in zip(vdef[0]["fields"], args)})
         if not cands or depth >= self.max_depth + 6:
             return Unknown("closure body missing")
         body = cands[0]
@@ -961,36 +977,95 @@ def _binop(op, a, b):
 
 
 def parse_repr(s, ty, fx, crate=None):
-    """parse rustc's rendering of an evaluated ADT constant, e.g. `config::Register(4_usize)`,
-    `config::Register::X(2_usize)`, `config::Immediate {{ val: 0_i64 }}`"""
+    """parse rustc's rendering of an evaluated constant, e.g. `config::Register(4_usize)`, `config::Register::X(2_usize)`,
+    `config::Immediate {{ val: 0_i64 }}`, arrays `[.., ..]`, tuples `(.., ..)` and function items coerced to pointers
+    `{code::Code::ADD as fn(..) -> code::Code}`"""
     import re
     s = s.replace("{{", "{").replace("}}", "}").strip()
     s = re.sub(r"^const ", "", s)
 
-    def num(tok):
-        m = re.fullmatch(r"(-?\d+)_?[iu](?:\d+|size)", tok.strip())
-        return int(m.group(1)) if m else None
+    def split(inner):
+        parts, cur, lvl = [], "", 0
+        for i, ch in enumerate(inner):
+            if ch in "({[":
+                lvl += 1
+            elif ch in ")}]":
+                lvl -= 1
+            elif ch == "<":
+                lvl += 1
+            elif ch == ">" and not cur.endswith("-"):
+                lvl -= 1
+            if ch == "," and lvl == 0:
+                parts.append(cur)
+                cur = ""
+            else:
+                cur += ch
+        if cur.strip():
+            parts.append(cur)
+        return [p_.strip() for p_ in parts]
 
-    m = re.fullmatch(r"([A-Za-z0-9_:]+)\s*\((.*)\)", s)
-    if m:
-        path, inner = m.group(1), m.group(2)
-        vals = [num(x) for x in inner.split(",")] if inner.strip() else []
-        adt, variant = _resolve_adt(path, ty, fx, crate)
-        return Adt(adt, variant, {str(i): (v if v is not None else Unknown("repr")) for i, v in enumerate(vals)})
-    m = re.fullmatch(r"([A-Za-z0-9_:]+)\s*\{(.*)\}", s)
-    if m:
-        path, inner = m.group(1), m.group(2)
-        fields = {}
-        for part in inner.split(","):
-            if ":" in part:
-                n, v = part.split(":", 1)
-                fields[n.strip()] = num(v) if num(v) is not None else Unknown("repr")
-        adt, variant = _resolve_adt(path, ty, fx, crate)
-        return Adt(adt, variant, fields)
-    adt, variant = _resolve_adt(s, ty, fx, crate)
-    if adt:
-        return Adt(adt, variant, {})
-    return Unknown("repr " + s)
+    def elem_ty(t):
+        t = t.strip()
+        m_ = re.fullmatch(r"\[(.*);\s*\d+\]", t) or re.fullmatch(r"&?\[(.*)\]", t)
+        return m_.group(1).strip() if m_ else t
+
+    def adt_of(path, tyhint):
+        # the type named by the value's own path (`config::Register::X` -> Register), else the declared type
+        segs = path.split("::")
+        for cut in (len(segs), len(segs) - 1):
+            cand = "::".join(segs[:cut])
+            for a in fx.adts:
+                if crate and a == crate + "::" + cand or a == cand or a.endswith("::" + cand) and a.split("::")[0] == (crate or a.split("::")[0]):
+                    A = fx.adts[a]
+                    if cut == len(segs):
+                        if A["kind"] != "enum":
+                            return a, A["variants"][0]["name"]
+                    elif any(v_["name"] == segs[-1] for v_ in A["variants"]):
+                        return a, segs[-1]
+        return _resolve_adt(path, tyhint, fx, crate)
+
+    def val(tok, tyhint):
+        tok = tok.strip()
+        m_ = re.fullmatch(r"(-?\d+)_?[iu](?:\d+|size)", tok)
+        if m_:
+            return int(m_.group(1))
+        if tok in ("true", "false"):
+            return tok == "true"
+        if tok.startswith("[") and tok.endswith("]"):
+            return Vec([val(x, elem_ty(tyhint)) for x in split(tok[1:-1])])
+        if tok.startswith("(") and tok.endswith(")"):
+            tys = split(tyhint.strip()[1:-1]) if tyhint.strip().startswith("(") else []
+            xs = split(tok[1:-1])
+            return Adt(None, None, {str(i): val(x, tys[i] if i < len(tys) else "") for i, x in enumerate(xs)})
+        mf = re.fullmatch(r"\{\s*([A-Za-z0-9_:]+)\s+as\s+fn\(.*\}", tok)
+        if mf:
+            fp = mf.group(1)
+            if crate and fp.split("::")[0] not in fx.crates:
+                fp = crate + "::" + fp
+            return FnVal(fp)
+        m_ = re.fullmatch(r"([A-Za-z0-9_:]+)\s*\((.*)\)", tok)
+        if m_:
+            adt, variant = adt_of(m_.group(1), tyhint)
+            ftys = []
+            if adt in fx.adts:
+                ftys = [f_["ty"] for v_ in fx.adts[adt]["variants"] if v_["name"] == variant for f_ in v_["fields"]]
+            xs = split(m_.group(2))
+            return Adt(adt, variant, {str(i): val(x, ftys[i] if i < len(ftys) else "") for i, x in enumerate(xs)})
+        m_ = re.fullmatch(r"([A-Za-z0-9_:]+)\s*\{(.*)\}", tok)
+        if m_:
+            adt, variant = adt_of(m_.group(1), tyhint)
+            fields = {}
+            for part in split(m_.group(2)):
+                if ":" in part:
+                    n_, v_ = part.split(":", 1)
+                    fields[n_.strip()] = val(v_, "")
+            return Adt(adt, variant, fields)
+        if re.fullmatch(r"[A-Za-z0-9_:]+", tok):
+            adt, variant = adt_of(tok, tyhint)
+            if adt:
+                return Adt(adt, variant, {})
+        return Unknown("repr " + tok[:40])
+    return val(s, ty)
 
 
 def _resolve_adt(path, ty, fx, crate=None):
@@ -1137,6 +1212,24 @@ def std_model(I, p, fr, t, args):
             return Iter([v for _, v in d0.ordered(I.fx)])
         if n in ("iter", "iter_mut", "into_iter"):
             return Iter([Adt(None, None, {"0": k, "1": v}) for k, v in d0.ordered(I.fx)])
+    if n in ("split_at", "split_at_mut") and isinstance(d0, Vec) and len(args) > 1 and isinstance(I.deref(args[1]), int) and c.startswith("core::slice::"):
+        k_ = I.deref(args[1])
+        if k_ > len(d0.items):
+            return "diverge"
+        return Adt(None, None, {"0": Vec(d0.items[:k_]), "1": Vec(d0.items[k_:])})
+    if n == "next_multiple_of" and len(args) == 2 and all(isinstance(I.deref(a), int) and not isinstance(I.deref(a), bool) for a in args) and I.deref(args[1]) > 0:
+        a_, b_ = I.deref(args[0]), I.deref(args[1])
+        return ((a_ + b_ - 1) // b_) * b_
+    if n in ("div_ceil",) and len(args) == 2 and all(isinstance(I.deref(a), int) and not isinstance(I.deref(a), bool) for a in args) and I.deref(args[1]) > 0:
+        return -(-I.deref(args[0]) // I.deref(args[1]))
+    if n in ("saturating_sub",) and len(args) == 2 and all(isinstance(I.deref(a), int) and not isinstance(I.deref(a), bool) for a in args):
+        return max(I.deref(args[0]) - I.deref(args[1]), 0)
+    if n == "zip" and isinstance(d0, Adt) and d0.path == "core::ops::range::RangeFrom" and isinstance(d0.fields.get("start"), int) and len(args) > 1:
+        o = I.deref(args[1])
+        if isinstance(o, Vec):
+            o = Iter(list(o.items))
+        if isinstance(o, Iter) and o.items is not None:
+            return Iter([Adt(None, None, {"0": d0.fields["start"] + i_, "1": b_}) for i_, b_ in enumerate(o.items[o.pos:])])
     if n == "chain" and isinstance(d0, Iter) and d0.items is not None and len(args) > 1 and \
             (t.get("callee_trait") == "core::iter::traits::iterator::Iterator" or c.startswith("core::iter::")):
         o = I.deref(args[1])
@@ -1227,6 +1320,22 @@ def std_model(I, p, fr, t, args):
             del d0.items[i:]
             return Vec(tail)
         return "diverge"
+    if n in ("index", "index_mut", "get") and isinstance(d0, Vec) and isinstance(I.deref(args[1]), Adt) and \
+            (I.deref(args[1]).path or "").startswith("core::ops::range::"):
+        rg = I.deref(args[1])
+        kind = rg.path.split("::")[-1]
+        lo = I.deref(rg.fields.get("start")) if "start" in rg.fields else 0
+        hi = I.deref(rg.fields.get("end")) if "end" in rg.fields else len(d0.items)
+        if kind in ("RangeInclusive", "RangeToInclusive") and isinstance(hi, int):
+            hi += 1
+        if isinstance(lo, int) and isinstance(hi, int) and not isinstance(lo, bool) and not isinstance(hi, bool):
+            if lo > hi or hi > len(d0.items):
+                return "diverge" if n != "get" else Adt("core::option::Option", "None", {})
+            sl = Vec(d0.items[lo:hi])
+            return sl if n != "get" else Adt("core::option::Option", "Some", {"0": sl})
+    if n == "extend_from_slice" and isinstance(d0, Vec) and isinstance(I.deref(args[1]), Vec):
+        d0.items.extend(copy.deepcopy(x) if isinstance(x, (Adt, Vec)) else x for x in I.deref(args[1]).items)
+        return Adt(None, None, {})
     if n == "index" and isinstance(d0, Vec) and isinstance(I.deref(args[1]), int):
         i = I.deref(args[1])
         if 0 <= i < len(d0.items):
